@@ -201,6 +201,10 @@ def main(tier, seed, scale=1.0):
     H.compile_programs("c09m", progs)
     miri_obs, reports = BH.run_miri("c09m", progs, {})
     for b, (rc, err) in reports.items():
+        if BH.classify_miri(err) == "tool":
+            chk.inconc("miri-tool-failure")
+            log("C09: Miri failed on %s without a UB report: %s" % (b, err[-400:].replace("\n", " | ")))
+            continue
         chk.violation("miri|" + digest(err[-400:]), "Miri reports an error while running the Deref/DerefMut workload "
                       "(bin %s)\n%s" % (b, err[-3000:]), {"miri.txt": err, "crate.rs": progs[b].source()})
     chk.extra["miri_processes"] = len(progs)
